@@ -1,8 +1,412 @@
-//! C19 harness entry (not implemented yet).
+//! C19: tetris library <-> vlsir.tetris protobuf messages.
+//!
+//! op "rt":  build a tetris `Library` from the JSON description through the public API (a heap of
+//!           cell objects, instances pointing at heap indices, a listing of heap indices),
+//!           `ProtoExporter::export`, print the message field by field, `ProtoLibImporter::import`
+//!           it, print the imported library.
+//! op "imp": build a `vlsir.tetris.Library` message directly from its JSON description (same shape
+//!           as the printed one), `ProtoLibImporter::import`, print the library.
+//! Each stage runs under its own `catch_unwind`: {"ok": ..} | {"err": msg} | {"panic": msg}.
 use l21h::{json, Value};
+use layout21protos as proto;
+use layout21tetris::abs::{Abstract, Port, PortKind, Side as AbsSide};
+use layout21tetris::cell::Cell;
+use layout21tetris::conv::proto::{ProtoExporter, ProtoLibImporter};
+use layout21tetris::coords::{PrimPitches, Xy};
+use layout21tetris::instance::Instance;
+use layout21tetris::layout::Layout;
+use layout21tetris::library::Library;
+use layout21tetris::outline::Outline;
+use layout21tetris::placement::{Align, Place, Placeable, RelativePlace, Separation, Side};
+use layout21tetris::raw::Dir;
+use layout21tetris::stack::{Assign, RelZ};
+use layout21tetris::tracks::{TrackCross, TrackRef};
+use layout21tetris::utils::Ptr;
+use proto::tetris as tp;
+use std::panic::{catch_unwind, AssertUnwindSafe};
 
-fn run(_case: &Value) -> Value {
-    json!({"harness_error": "not implemented"})
+// ---------------------------------------------------------------- JSON -> tetris
+fn dir(v: &Value) -> Dir {
+    if v.as_i64().unwrap() == 0 {
+        Dir::Horiz
+    } else {
+        Dir::Vert
+    }
+}
+fn pp(v: &Value) -> PrimPitches {
+    PrimPitches { dir: dir(&v[0]), num: v[1].as_i64().unwrap() as isize }
+}
+fn pps(v: &Value) -> Vec<PrimPitches> {
+    v.as_array().unwrap().iter().map(pp).collect()
+}
+fn us(v: &Value) -> usize {
+    v.as_u64().expect("usize") as usize
+}
+fn outline(ox: &Value, oy: &Value) -> Outline {
+    // fields are pub: no validation on this path (validation is the importer's job)
+    Outline { x: pps(ox), y: pps(oy) }
+}
+fn cross(v: &[Value]) -> TrackCross {
+    TrackCross::new(TrackRef::new(us(&v[0]), us(&v[1])), TrackRef::new(us(&v[2]), us(&v[3])))
+}
+fn s(v: &Value) -> String {
+    v.as_str().unwrap().to_string()
+}
+fn build_lib(case: &Value) -> Library {
+    let heap = case["heap"].as_array().unwrap();
+    // first every cell object, so that instances can point anywhere (also backwards: cycles)
+    let ptrs: Vec<Ptr<Cell>> = heap.iter().map(|c| Ptr::new(Cell::new(s(&c["name"])))).collect();
+    for (k, c) in heap.iter().enumerate() {
+        let mut cell = Cell::new(s(&c["name"]));
+        if !c["layout"].is_null() {
+            let l = &c["layout"];
+            let mut lay = Layout::new(s(&l["name"]), us(&l["metals"]), outline(&l["ox"], &l["oy"]));
+            for i in l["insts"].as_array().unwrap() {
+                let target = ptrs[us(&i["cell"])].clone();
+                let loc: Place<Xy<PrimPitches>> = if i["loc"].is_null() {
+                    // a relative place: next to a (detached) instance of the same cell
+                    let other = Ptr::new(Instance {
+                        inst_name: "other".into(),
+                        cell: target.clone(),
+                        loc: Place::Abs(Xy::new(PrimPitches::x(0), PrimPitches::y(0))),
+                        reflect_horiz: false,
+                        reflect_vert: false,
+                    });
+                    Place::Rel(RelativePlace {
+                        to: Placeable::Instance(other),
+                        side: Side::Right,
+                        align: Align::Center,
+                        sep: Separation::default(),
+                    })
+                } else {
+                    Place::Abs(Xy::new(pp(&i["loc"][0]), pp(&i["loc"][1])))
+                };
+                lay.instances.add(Instance {
+                    inst_name: s(&i["name"]),
+                    cell: target,
+                    loc,
+                    reflect_horiz: i["rh"].as_bool().unwrap(),
+                    reflect_vert: i["rv"].as_bool().unwrap(),
+                });
+            }
+            for a in l["assigns"].as_array().unwrap() {
+                let a = a.as_array().unwrap();
+                lay.assignments.push(Assign::new(s(&a[0]), cross(&a[1..5])));
+            }
+            for c in l["cuts"].as_array().unwrap() {
+                lay.cuts.push(cross(c.as_array().unwrap()));
+            }
+            cell.layout = Some(lay);
+        }
+        if !c["abs"].is_null() {
+            let a = &c["abs"];
+            let mut abs = Abstract::new(s(&a["name"]), us(&a["metals"]), outline(&a["ox"], &a["oy"]));
+            for p in a["ports"].as_array().unwrap() {
+                let side = |v: &Value| if v.as_i64().unwrap() == 0 { AbsSide::BottomOrLeft } else { AbsSide::TopOrRight };
+                let kind = match p["kind"].as_str().unwrap() {
+                    "edge" => PortKind::Edge { layer: us(&p["layer"]), track: us(&p["track"]), side: side(&p["side"]) },
+                    "ztopedge" => PortKind::ZTopEdge {
+                        track: us(&p["track"]),
+                        side: side(&p["side"]),
+                        into: (us(&p["into"]), if p["above"].as_bool().unwrap() { RelZ::Above } else { RelZ::Below }),
+                    },
+                    _ => PortKind::ZTopInner { locs: Vec::new() },
+                };
+                abs.ports.push(Port { name: s(&p["name"]), kind });
+            }
+            cell.abs = Some(abs);
+        }
+        *ptrs[k].write().unwrap() = cell;
+    }
+    let mut lib = Library::new(s(&case["name"]));
+    for i in case["listing"].as_array().unwrap() {
+        lib.cells.push(ptrs[us(i)].clone());
+    }
+    lib
+}
+
+// ---------------------------------------------------------------- tetris -> JSON
+fn dirj(d: Dir) -> i64 {
+    match d {
+        Dir::Horiz => 0,
+        Dir::Vert => 1,
+    }
+}
+fn ppj(p: &PrimPitches) -> Value {
+    json!([dirj(p.dir), p.num as i64])
+}
+fn crossj(c: &TrackCross) -> Value {
+    json!([c.track.layer as u64, c.track.track as u64, c.cross.layer as u64, c.cross.track as u64])
+}
+fn print_lib(lib: &Library) -> Value {
+    let mut cells = Vec::new();
+    for cp in lib.cells.iter() {
+        let cell = cp.read().unwrap();
+        let lay = match &cell.layout {
+            None => Value::Null,
+            Some(l) => {
+                let mut insts = Vec::new();
+                for ip in l.instances.iter() {
+                    let i = ip.read().unwrap();
+                    let idx = lib.cells.iter().position(|p| *p == i.cell).map(|k| k as i64).unwrap_or(-1);
+                    let cname = if i.cell == *cp { cell.name.clone() } else { i.cell.read().unwrap().name.clone() };
+                    let loc = match &i.loc {
+                        Place::Abs(xy) => json!([ppj(&xy.x), ppj(&xy.y)]),
+                        Place::Rel(_) => Value::Null,
+                    };
+                    insts.push(json!({"name": i.inst_name, "cell": idx, "cellname": cname, "loc": loc,
+                                      "rh": i.reflect_horiz, "rv": i.reflect_vert}));
+                }
+                let assigns: Vec<Value> = l.assignments.iter().map(|a| json!({"net": a.net, "at": crossj(&a.at)})).collect();
+                let cuts: Vec<Value> = l.cuts.iter().map(crossj).collect();
+                json!({"name": l.name, "metals": l.metals as u64,
+                       "ox": l.outline.x.iter().map(ppj).collect::<Vec<_>>(),
+                       "oy": l.outline.y.iter().map(ppj).collect::<Vec<_>>(),
+                       "insts": insts, "assigns": assigns, "cuts": cuts, "nplaces": l.places.len()})
+            }
+        };
+        let abs = match &cell.abs {
+            None => Value::Null,
+            Some(a) => json!({"name": a.name, "metals": a.metals as u64,
+                              "ox": a.outline.x.iter().map(ppj).collect::<Vec<_>>(),
+                              "oy": a.outline.y.iter().map(ppj).collect::<Vec<_>>(),
+                              "nports": a.ports.len()}),
+        };
+        cells.push(json!({"name": cell.name, "layout": lay, "abs": abs,
+                          "extra": cell.interface.is_some() || cell.raw.is_some()}));
+    }
+    json!({"name": lib.name, "cells": cells, "rawlibs": lib.rawlibs.len()})
+}
+
+// ---------------------------------------------------------------- proto -> JSON
+fn trj(t: &Option<tp::TrackRef>) -> Value {
+    match t {
+        None => Value::Null,
+        Some(t) => json!([t.layer, t.track]),
+    }
+}
+fn pcrossj(c: &tp::TrackCross) -> Value {
+    json!({"track": trj(&c.track), "cross": trj(&c.cross)})
+}
+fn poutj(o: &Option<tp::Outline>) -> Value {
+    match o {
+        None => Value::Null,
+        Some(o) => json!({"x": o.x, "y": o.y, "metals": o.metals}),
+    }
+}
+fn print_plib(p: &tp::Library) -> Value {
+    use proto::utils::reference::To;
+    use tp::abstract_port::Kind;
+    let mut cells = Vec::new();
+    for c in &p.cells {
+        let lay = match &c.layout {
+            None => Value::Null,
+            Some(l) => {
+                let insts: Vec<Value> = l
+                    .instances
+                    .iter()
+                    .map(|i| {
+                        let cell = match &i.cell {
+                            None => Value::Null,
+                            Some(r) => match &r.to {
+                                None => json!({ "to": Value::Null }),
+                                Some(To::Local(n)) => json!({"to": ["local", n]}),
+                                Some(To::External(_)) => json!({"to": ["external"]}),
+                            },
+                        };
+                        let loc = match &i.loc {
+                            None => Value::Null,
+                            Some(pl) => match &pl.place {
+                                None => json!({ "place": Value::Null }),
+                                Some(tp::place::Place::Abs(pt)) => json!({"place": ["abs", pt.x, pt.y]}),
+                                Some(tp::place::Place::Rel(_)) => json!({"place": ["rel"]}),
+                            },
+                        };
+                        json!({"name": i.name, "cell": cell, "loc": loc, "rh": i.reflect_horiz, "rv": i.reflect_vert})
+                    })
+                    .collect();
+                let assigns: Vec<Value> = l
+                    .assignments
+                    .iter()
+                    .map(|a| json!({"net": a.net, "at": match &a.at { None => Value::Null, Some(c) => pcrossj(c) }}))
+                    .collect();
+                let cuts: Vec<Value> = l.cuts.iter().map(pcrossj).collect();
+                json!({"name": l.name, "outline": poutj(&l.outline), "insts": insts, "assigns": assigns, "cuts": cuts})
+            }
+        };
+        let abs = match &c.r#abstract {
+            None => Value::Null,
+            Some(a) => {
+                let ports: Vec<Value> = a
+                    .ports
+                    .iter()
+                    .map(|pt| {
+                        let kind = match &pt.kind {
+                            None => Value::Null,
+                            Some(Kind::Edge(e)) => json!(["edge", trj(&e.track), e.side]),
+                            Some(Kind::ZtopEdge(e)) => json!(["ztopedge", e.track, e.side, trj(&e.into)]),
+                            Some(Kind::ZtopInner(_)) => json!(["ztopinner"]),
+                        };
+                        json!({"net": pt.net, "kind": kind})
+                    })
+                    .collect();
+                json!({"name": a.name, "outline": poutj(&a.outline), "ports": ports})
+            }
+        };
+        cells.push(json!({"name": c.name, "layout": lay, "abs": abs,
+                          "extra": c.interface.is_some() || c.module.is_some()}));
+    }
+    json!({"domain": p.domain, "cells": cells, "author": p.author.is_some()})
+}
+
+// ---------------------------------------------------------------- JSON -> proto
+fn jtr(v: &Value) -> Option<tp::TrackRef> {
+    if v.is_null() {
+        None
+    } else {
+        Some(tp::TrackRef { layer: v[0].as_i64().unwrap(), track: v[1].as_i64().unwrap() })
+    }
+}
+fn jpcross(v: &Value) -> tp::TrackCross {
+    tp::TrackCross { track: jtr(&v["track"]), cross: jtr(&v["cross"]) }
+}
+fn jpout(v: &Value) -> Option<tp::Outline> {
+    if v.is_null() {
+        return None;
+    }
+    let ints = |a: &Value| a.as_array().unwrap().iter().map(|x| x.as_i64().unwrap()).collect::<Vec<i64>>();
+    Some(tp::Outline { x: ints(&v["x"]), y: ints(&v["y"]), metals: v["metals"].as_i64().unwrap() })
+}
+fn build_plib(v: &Value) -> tp::Library {
+    use proto::utils::reference::To;
+    use tp::abstract_port::Kind;
+    let mut plib = tp::Library::default();
+    plib.domain = s(&v["domain"]);
+    for c in v["cells"].as_array().unwrap() {
+        let mut pc = tp::Cell::default();
+        pc.name = s(&c["name"]);
+        if !c["layout"].is_null() {
+            let l = &c["layout"];
+            let mut pl = tp::Layout::default();
+            pl.name = s(&l["name"]);
+            pl.outline = jpout(&l["outline"]);
+            for i in l["insts"].as_array().unwrap() {
+                let cell = if i["cell"].is_null() {
+                    None
+                } else {
+                    let to = &i["cell"]["to"];
+                    Some(proto::utils::Reference {
+                        to: if to.is_null() {
+                            None
+                        } else if to[0] == "local" {
+                            Some(To::Local(s(&to[1])))
+                        } else {
+                            Some(To::External(proto::utils::QualifiedName { domain: "ext".into(), name: "x".into() }))
+                        },
+                    })
+                };
+                let loc = if i["loc"].is_null() {
+                    None
+                } else {
+                    let p = &i["loc"]["place"];
+                    Some(tp::Place {
+                        place: if p.is_null() {
+                            None
+                        } else if p[0] == "abs" {
+                            Some(tp::place::Place::Abs(proto::raw::Point::new(p[1].as_i64().unwrap(), p[2].as_i64().unwrap())))
+                        } else {
+                            Some(tp::place::Place::Rel(tp::RelPlace {}))
+                        },
+                    })
+                };
+                pl.instances.push(tp::Instance {
+                    name: s(&i["name"]),
+                    cell,
+                    loc,
+                    reflect_horiz: i["rh"].as_bool().unwrap(),
+                    reflect_vert: i["rv"].as_bool().unwrap(),
+                });
+            }
+            for a in l["assigns"].as_array().unwrap() {
+                pl.assignments.push(tp::Assign {
+                    net: s(&a["net"]),
+                    at: if a["at"].is_null() { None } else { Some(jpcross(&a["at"])) },
+                });
+            }
+            for x in l["cuts"].as_array().unwrap() {
+                pl.cuts.push(jpcross(x));
+            }
+            pc.layout = Some(pl);
+        }
+        if !c["abs"].is_null() {
+            let a = &c["abs"];
+            let mut pa = tp::Abstract::default();
+            pa.name = s(&a["name"]);
+            pa.outline = jpout(&a["outline"]);
+            for p in a["ports"].as_array().unwrap() {
+                let k = &p["kind"];
+                let kind = if k.is_null() {
+                    None
+                } else if k[0] == "edge" {
+                    Some(Kind::Edge(tp::abstract_port::EdgePort { track: jtr(&k[1]), side: k[2].as_i64().unwrap() as i32 }))
+                } else if k[0] == "ztopedge" {
+                    Some(Kind::ZtopEdge(tp::abstract_port::ZTopEdgePort {
+                        track: k[1].as_i64().unwrap(),
+                        side: k[2].as_i64().unwrap() as i32,
+                        into: jtr(&k[3]),
+                    }))
+                } else {
+                    Some(Kind::ZtopInner(tp::abstract_port::ZTopInner { locs: Vec::new() }))
+                };
+                pa.ports.push(tp::AbstractPort { net: s(&p["net"]), kind });
+            }
+            pc.r#abstract = Some(pa);
+        }
+        plib.cells.push(pc);
+    }
+    plib
+}
+
+// ---------------------------------------------------------------- stages
+fn panic_msg(p: Box<dyn std::any::Any + Send>) -> String {
+    if let Some(s) = p.downcast_ref::<&str>() {
+        s.to_string()
+    } else if let Some(s) = p.downcast_ref::<String>() {
+        s.clone()
+    } else {
+        "panic".to_string()
+    }
+}
+fn import_stage(plib: &tp::Library) -> Value {
+    match catch_unwind(AssertUnwindSafe(|| ProtoLibImporter::import(plib))) {
+        Err(p) => json!({ "panic": panic_msg(p) }),
+        Ok(Err(e)) => json!({ "err": format!("{:?}", e).chars().take(200).collect::<String>() }),
+        Ok(Ok(lib)) => json!({ "ok": print_lib(&lib) }),
+    }
+}
+
+fn run(case: &Value) -> Value {
+    match case["op"].as_str().unwrap_or("") {
+        "rt" => {
+            let lib = build_lib(case);
+            let exp = catch_unwind(AssertUnwindSafe(|| ProtoExporter::export(&lib)));
+            match exp {
+                Err(p) => json!({"export": {"panic": panic_msg(p)}}),
+                Ok(Err(e)) => json!({"export": {"err": format!("{:?}", e).chars().take(200).collect::<String>()}}),
+                Ok(Ok(plib)) => {
+                    let pj = print_plib(&plib);
+                    // the printed form must itself describe the message: rebuild it and compare
+                    let same = build_plib(&pj) == plib;
+                    json!({"export": {"ok": pj}, "reparse_same": same, "import": import_stage(&plib)})
+                }
+            }
+        }
+        "imp" => {
+            let plib = build_plib(&case["plib"]);
+            json!({"import": import_stage(&plib)})
+        }
+        _ => json!({"harness_error": "bad op"}),
+    }
 }
 
 fn main() {
